@@ -12,13 +12,13 @@ def run(ctx: Ctx) -> int:
                 env={"VERIF_C31_DEPTH": depth, "VERIF_C31_SHARD": f"{i}/{nsh}"}) for i in range(nsh)]
     jobs.append(Job(H, "h_roundtrip", timeout=t, name="h_roundtrip[region: tuple as the only type argument]", role=f"finding:{KEY}",
                     env={"VERIF_C31_DEPTH": 1, "VERIF_C31_REGION": 1}))
-    for i in range(8):
-        jobs.append(Job(H, "h_distinct_names", timeout=ctx.pick(300, 900), name=f"h_distinct_names[shard {i + 1}/8]", env={"VERIF_C31_DEPTH": 0, "VERIF_C31_SHARD": f"{i}/8"}))
+    for i in range(16):
+        jobs.append(Job(H, "h_distinct_names", timeout=ctx.pick(300, 900), name=f"h_distinct_names[shard {i + 1}/16]", env={"VERIF_C31_DEPTH": 0, "VERIF_C31_SHARD": f"{i}/16"}))
     ctx.functions_encoded = ["tys/printing.py: TypePrinter (all _visit_* incl. _fresh_name and the bound/existential name tables), reached through str(ty)",
                              "tys/parsing.py: type_from_ast, arg_from_ast, _try_parse_defn, _arg_from_instantiated_defn, tuple / None / subscript forms; definition/ty.py + struct.py: check_instantiate of the type defs"]
     ctx.bounds = {"types": f"all first-order types of constructor depth <= {depth} over int nat float bool str None () Plain qubit, tuples of 1-3 elements, array[T, 2], Option[T], frozenarray[T, 3], generic structs with 1 and 2 "
                            "type parameters and with a type + nat parameter (children of binary constructors from the first 12/6 types of the level below)",
-                  "names": "generic function types with <= 3 parameters and <= 3 inference variables, display names from a pool with clashes, each variable occurring once or twice"}
+                  "names": "generic function types with <= 3 parameters and <= 3 inference variables, display names from a pool with clashes (T, U, T), and <= 3 variables from the pool (T, T, T_1, T1, T_) whose members look like disambiguated names; each variable occurring once or twice"}
     ctx.outside_claim = ["function types as components (the statement excludes them)", "types deeper than the bound", "list[T] (experimental)", "types inside the region of the known finding (probed separately)"]
     ctx.assumptions = ["the printer and parser work on str / C-level ast objects: each explored path is one concrete type, the solver enumerates the selector space (stated, not hidden)"]
     ctx.crosshair(jobs)
